@@ -66,7 +66,7 @@ Proof.
   intros H1 H2 H3 aux ver rs ix W F R.
   destruct (csi_io_preserves ms dp aux ver rs ix F R) as (A & _ & C & _).
   split; [exact A|]. intros rid beg end_ r Hq Hq2 Hr Ho. rewrite C.
-  apply (csi_complete_reach_gen ms dp (csi_bin_containment_holds ms dp H1 H2 H3) aux ver rs ix W
+  apply (csi_complete_reach_gen ms dp (csi_bin_containment_holds ms dp H1 H2 H3) (csi_geo_ok ms dp H1 H2 H3) aux ver rs ix W
            (creach_built ms dp aux ver rs ix F)); assumption.
 Qed.
 
@@ -105,7 +105,8 @@ Qed.
 Lemma ix_chunks_sorted ix rid beg end_ cs :
   fst (ix_chunks ix rid beg end_) = Ok cs -> key_sorted fst cs.
 Proof.
-  unfold ix_chunks. destruct ((rid <? 0) || (rid >=? zlen (irefs ix))); [discriminate|]. cbn [fst].
+  unfold ix_chunks. destruct ((rid <? 0) || (rid >=? zlen (irefs ix))); [discriminate|].
+  destruct ((beg <? 0) || (end_ <? beg)); [discriminate|]. cbn [fst].
   unfold ix_chunks_of. destruct (_ >=? _); [discriminate|]. unfold chk. destruct (0 <=? _); [|discriminate].
   intros H. inversion H. apply ix_isort_sorted.
 Qed.
